@@ -50,6 +50,10 @@ CLAIMED = {
           "Generated-input search: one P per cue, exact rational times (type and value), lines, per-character formatting for both tag syntaxes; all 1000 ms values x 5 rates x 4 bases enumerated for the composed frames output; the SRT writer's output over styled documents is re-read and compared with what a strict parser reads.",
           "Trusted: vt/gen_srt.py expectations (self-tested), vt/cueparse.py. Short brace tags {b} accepted under either reading; line-edge spaces free.",
           "DESIGN.md C10"),
+  "C19": ("Hypothesis command lines / configurations / histories: CLI output bytes vs an independently written library composition; enumerated error scenarios and configuration values; subprocess determinism under hash seeds",
+          "Generated-input search: pipeline equality over input/output formats, type selection, filter lists (incl. non-commuting harness filters) and every documented configuration key; file-over-inline precedence; error scenarios leave no output; every documented key x valid and invalid values enumerated; determinism across fresh processes, repetitions, histories, PYTHONHASHSEED and log settings.",
+          "Trusted: vt/gen_cli.py compose() written from README/tt.py contract; 'documented values' transcribed narrowly from README.md. Unknown filter names are not asserted.",
+          "DESIGN.md C19"),
 }
 NOT_APPLICABLE = {}
 
